@@ -492,6 +492,11 @@ class Manager:
                 # self._currently_handling = None though, but then need to copy
                 # it to a local variable here before performing a sequence of
                 # operations that assume its value to remain unchanged.
+                if self.root is not self:
+                    # registered in another tree since the caller looked up
+                    # its root: this queue has been handed over
+                    return self.root._fire(event, channel, priority)
+
                 handling = self._currently_handling
 
                 self._queue.append(event, channel, priority)
